@@ -57,7 +57,7 @@ class ModelGap(Exception):
   """The code under test used a part of an API that the environment model does not provide: no verdict."""
 
 
-MODEL_NAMES = ('_Lzma', 'Net', 'Resp', 'Raw', '_Writer', '_Reader', 'OSFacade', 'OSPathFacade', '_Builder', '_SqliteStub', '_FSProxy', 'ModelFS', 'DiskFS')
+MODEL_NAMES = ('_Lzma', 'LZMADecompressor', 'Net', 'Resp', 'Raw', '_Writer', '_Reader', 'OSFacade', 'OSPathFacade', '_Builder', '_SqliteStub', '_FSProxy', 'ModelFS', 'DiskFS')
 
 
 def is_model_gap(e):
@@ -117,8 +117,14 @@ class Net:
 
 
 class _Lzma:
+  """lzma model: a 2-byte header, the payload, and an end of stream that sits after the last byte of the complete compressed
+  file (the container knows its length): a stream that stops earlier is truncated, bytes after it are unused data."""
+
   def __init__(self, fs):
     self.fs = fs
+
+  class LZMAError(Exception):
+    pass
 
   def open(self, path, mode='rb'):
     return fs_model._Reader(self.decompress(self.fs.read(path)))
@@ -127,8 +133,34 @@ class _Lzma:
   def decompress(data):
     data = bytes(data)
     if data[:2] != b'LZ':
-      raise ValueError('not an lzma stream')
-    return data[2:]
+      raise _Lzma.LZMAError('Input format not supported by decoder')
+    if len(data) < len(COMPRESSED):
+      raise EOFError('Compressed file ended before the end-of-stream marker was reached')
+    return data[2:len(COMPRESSED)]
+
+  class LZMADecompressor:
+    """Incremental decoder: returns what it has, never complains about a short stream (callers must look at `eof`)."""
+
+    def __init__(self, *a, **k):
+      self.fed = b''
+      self.given = 0
+      self.eof = False
+      self.unused_data = b''
+      self.needs_input = True
+
+    def decompress(self, data, max_length=-1):
+      if self.eof:
+        raise EOFError('Already at end of stream')
+      self.fed += bytes(data)
+      if len(self.fed) >= 2 and self.fed[:2] != b'LZ' or len(self.fed) == 1 and self.fed != b'L':
+        raise _Lzma.LZMAError('Input format not supported by decoder')
+      if len(self.fed) >= len(COMPRESSED):
+        self.eof = True
+        self.needs_input = False
+        self.unused_data = self.fed[len(COMPRESSED):]
+      out = self.fed[2:len(COMPRESSED)][self.given:]
+      self.given += len(out)
+      return out
 
 
 _FSBOX = [None]
@@ -458,3 +490,52 @@ def empty_body(c1: int) -> bool:
   post: __return__
   """
   return not scenario_empty_body(fs_model.ModelFS, [c1] if c1 >= 0 else [])
+
+
+def scenario_foreign(fs_factory, keep, repair):
+  """A compressed file that some other tool / an older fetch left cut short after `keep` (stored) bytes sits under the .lzma name:
+  maybe_lzma_decompress may fail, but the decompressed name must not appear with anything but the complete content; once the
+  compressed file is whole again (`repair`), a later call produces the complete file."""
+  fs = fs_factory()
+  use_fs(fs)
+  cpath, dpath = final_paths()
+  violations = []
+  try:
+    fs.arm(-1)
+    h = fs.create(cpath)
+    fs.append(h, COMPRESSED[:keep], None)
+    fs.close(h)
+    try:
+      DL.maybe_lzma_decompress(cpath)
+    except fs_model.Crash:
+      raise
+    except Exception as e:   # pylint: disable=broad-except
+      if is_model_gap(e):
+        raise ModelGap('%s: %s' % (type(e).__name__, e))
+    if fs.exists(dpath) and fs.read(dpath) != PAYLOAD:
+      violations.append('decompressed file %s is visible under its final name with %d of %d bytes (compressed input cut at %d)'
+                        % (dpath, len(fs.read(dpath)), len(PAYLOAD), keep))
+    elif repair:
+      h = fs.create(cpath)
+      fs.append(h, COMPRESSED, None)
+      fs.close(h)
+      try:
+        out = DL.maybe_lzma_decompress(cpath)
+        if out != dpath or not fs.exists(dpath) or fs.read(dpath) != PAYLOAD:
+          violations.append('the final call returned an incomplete file after the compressed file was repaired')
+      except Exception as e:   # pylint: disable=broad-except
+        if is_model_gap(e):
+          raise ModelGap('%s: %s' % (type(e).__name__, e))
+        violations.append('a later call raised %s: %s' % (type(e).__name__, str(e)[:80]))
+  finally:
+    if hasattr(fs, 'cleanup'):
+      fs.cleanup()
+  return violations
+
+
+def foreign(keep: int, repair: bool) -> bool:
+  """
+  pre: 0 <= keep < len(COMPRESSED)
+  post: __return__
+  """
+  return not scenario_foreign(fs_model.ModelFS, keep, repair)
